@@ -44,9 +44,10 @@ pub fn run_cell(ctx: &Ctx, plan: &LawPlan, min_n: u64) -> Option<LawOutcome> {
     };
     let law = reflaw(cell)?;
     let seed = hseed(&[ctx.seed, cell.hash64(), 0x1A3]);
+    let fill = |rng: &mut BaseRng, out: &mut [f64]| sampler.fill(rng, out);
     let out = check_law(&LawJob {
         cell,
-        sampler: sampler.as_ref(),
+        sampler: &fill,
         law: &law,
         n: plan.n,
         seed,
@@ -120,7 +121,9 @@ pub fn plans_c02(ctx: &Ctx) -> Vec<LawPlan> {
     let ps = [0.0, 2f64.powi(-60), 1e-9, 0.01, 0.05, 0.1, 0.25, 1.0 / 3.0, 0.4, 0.49, 0.5, 0.51, 0.6, 2.0 / 3.0, 0.75, 0.9, 0.99, 1.0 - 1e-9, 1.0];
     for n in 0..=30u64 {
         for &p in &ps {
-            plans.push(LawPlan { cell: Cell::newi(Fam::Binomial, &[n], &[p]), n: n_small, origin: "exhaustive_small" });
+            // BTPE needs n*min(p,1-p) >= 10: those cells carry the method's squeeze constants and get the grid sample size
+            let btpe = (n as f64) * p.min(1.0 - p) >= 10.0;
+            plans.push(LawPlan { cell: Cell::newi(Fam::Binomial, &[n], &[p]), n: if btpe { n_grid } else { n_small.max(1_000_000) }, origin: "exhaustive_small" });
         }
     }
     for nn in 0..=40u64 {
@@ -129,6 +132,10 @@ pub fn plans_c02(ctx: &Ctx) -> Vec<LawPlan> {
                 plans.push(LawPlan { cell: Cell::newi(Fam::Hypergeometric, &[nn, kk, n], &[]), n: n_small, origin: "exhaustive_small" });
             }
         }
+    }
+    // extension below E's 1e-9 for Geometric (power-of-two split with k up to 53; the law is closed-form)
+    for p in [3e-10, 1e-10, 1e-11, 1e-12, 1e-14, 2f64.powi(-53)] {
+        plans.push(LawPlan { cell: Cell::newi(Fam::Geometric, &[], &[p]), n: n_grid, origin: "grid_extension" });
     }
     for &fam in DISCRETE.iter() {
         let fts: &[Ft] = if fam.int_only() { &[Ft::F64] } else { &[Ft::F32, Ft::F64] };
